@@ -544,16 +544,18 @@ class Replayer:
       if not (self.match_value(spec_out['ret'], ret) or (spec_out['ret'] == RF and ret is SHARED)):
         # setdefault returns the passed default (a plain container) when it inserts; only leaves are generated
         raise Divergence('ret', f'spec {spec_out["ret"]} impl {ret!r}')
-    # -- one place
+    # -- one place / parent / path / lookup: compared only for properties that own (or depend on) those clauses, so that
+    # a property about contents keeps replaying the history when only the tree bookkeeping is off
+    tree_clauses = bool(self.clauses & {'parent', 'path', 'lookup', 'oneplace', 'flags', 'events', 'facts'}) or not self.clauses
     seen = {}
-    for n in alive:
+    for n in (alive if tree_clauses else []):
       for k, v in self.items_of(self.obj[n]):
         if isinstance(v, pg.Symbolic) and not isinstance(v, (pg.hyper.OneOf, pg.Ref)):
           if id(v) in seen:
             raise Divergence('oneplace', f'object stored at {seen[id(v)]} and at {(n, k)}')
           seen[id(v)] = (n, k)
     # -- parent / path / lookup
-    for n in alive:
+    for n in (alive if tree_clauses else []):
       o = self.obj[n]
       par = st['parent'][n - 1]
       if par == 0:
@@ -562,7 +564,7 @@ class Replayer:
         continue
       if o.sym_parent is not self.obj[par]:
         raise Divergence('parent', f'node {n}: parent is not node {par} ({o.sym_parent!r:.60})')
-    for n in alive:
+    for n in (alive if tree_clauses else []):
       if st['parent'][n - 1] == 0:
         continue
       o = self.obj[n]
